@@ -1330,6 +1330,8 @@ class BaseImage(metaclass=ImageMeta):
         prev_seek_pos = self._seek_position
         duration = self._frame_duration
         image_it = ImageIterator(self, repeat, "", cached)
+        # Release the image opened by the iterator, *img* is used instead
+        image_it.close()
         image_it._animator = image_it._animate(img, alpha, fmt, style_args)
         # A parameter of zero is taken to be one by terminal emulators
         cursor_up = CURSOR_UP % (lines - 1) if lines > 1 else ""
